@@ -444,12 +444,10 @@ theorem mergeClusters_ctl {b b' : Buf} {s e : Nat} (h : mergeClusters b s e = .o
   unfold mergeClusters at h
   simp only [bind, Except.bind, pure, Except.pure] at h
   split at h
-  · simp [throw, throwThe, MonadExceptOf.throw] at h
+  · cases h; rfl
   · split at h
+    · cases h
     · cases h; rfl
-    · split at h
-      · cases h
-      · cases h; rfl
 
 theorem rearrApply_ctl {cs : CS} {v : Nat} {b b' : Buf} (h : rearrApply cs v b = .ok b') : b'.ctl = b.ctl := by
   unfold rearrApply at h
